@@ -166,7 +166,31 @@ func authnRequestXML(issuer, dest, version, issueInstant, acsURL, acsIdx *string
 	if issuer != nil {
 		el.CreateElement("saml:Issuer").SetText(*issuer)
 	}
+	if authnExtraChildren != "" {
+		frag := etree.NewDocument()
+		if err := frag.ReadFromString(`<x xmlns:samlp="` + samlgen.NSProtocol + `" xmlns:saml="` + samlgen.NSAssertion + `">` + authnExtraChildren + `</x>`); err == nil {
+			for _, ch := range frag.Root().ChildElements() {
+				el.AddChild(ch.Copy())
+			}
+		}
+	}
 	return samlgen.Doc(el)
+}
+
+// authnExtraChildren, when set, is XML for further (optional) children of the requests authnRequestXML builds, after the Issuer.
+var authnExtraChildren string
+
+// c05RequestExtras: optional children an AuthnRequest may carry. None of them changes whether the request is fresh, whom it is from or
+// where the answer goes.
+var c05RequestExtras = []struct{ name, xml string }{
+	{"none", ""},
+	{"conditions-notonorafter-future", `<saml:Conditions NotOnOrAfter="2031-01-01T00:00:00Z"/>`},
+	{"conditions-notbefore-past+notonorafter-far-future", `<saml:Conditions NotBefore="2000-01-01T00:00:00Z" NotOnOrAfter="2999-01-01T00:00:00Z"/>`},
+	{"conditions-audience-other", `<saml:Conditions><saml:AudienceRestriction><saml:Audience>https://other-sp.example.org/metadata</saml:Audience></saml:AudienceRestriction></saml:Conditions>`},
+	{"conditions-onetimeuse", `<saml:Conditions><saml:OneTimeUse/></saml:Conditions>`},
+	{"subject-other-principal", `<saml:Subject><saml:NameID>mallory@example.com</saml:NameID><saml:SubjectConfirmation Method="urn:oasis:names:tc:SAML:2.0:cm:bearer"><saml:SubjectConfirmationData NotOnOrAfter="2999-01-01T00:00:00Z" Recipient="https://evil.example.net/acs"/></saml:SubjectConfirmation></saml:Subject>`},
+	{"scoping-proxycount+idplist", `<samlp:Scoping ProxyCount="0"><samlp:IDPList><samlp:IDPEntry ProviderID="https://other-idp.example.net/"/></samlp:IDPList><samlp:RequesterID>https://evil.example.net/</samlp:RequesterID></samlp:Scoping>`},
+	{"extensions", `<samlp:Extensions><x:Y xmlns:x="urn:example:ext" IssueInstant="2999-01-01T00:00:00Z" Destination="https://evil.example.net/"/></samlp:Extensions>`},
 }
 
 func init() {
@@ -577,12 +601,64 @@ func runC05(c *core.Ctx) {
 		}
 	}
 
+	// optional children of the request x freshness: a stale request is stale whatever it says about its own validity
+	c.Group("gate-freshness-x-optional-request-children")
+	if md, err := buildShape(gateShapes[0], false); err == nil {
+		idp := mkIDP(md)
+		for _, ex := range c05RequestExtras {
+			for iiN, iiOff := range map[string]time.Duration{"now": 0, "in-1s": -tols[0].delay + time.Second, "out-1s": -tols[0].delay - time.Second, "10-minutes-ago": -10 * time.Minute, "a-year-ago": -365 * 24 * time.Hour} {
+				for _, enc := range []string{"GET", "POST"} {
+					ex, iiN, iiOff, enc := ex, iiN, iiOff, enc
+					key := fmt.Sprintf("gate-extras/%s/ii=%s/enc=%s", ex.name, iiN, enc)
+					c.Case(key, func(t *core.T) {
+						t.NonTrivial()
+						saml.MaxIssueDelay, saml.MaxClockSkew = tols[0].delay, tols[0].skew
+						authnExtraChildren = ex.xml
+						doc := authnRequestXML(samlgen.S(samlgen.SPEntity), samlgen.S(samlgen.IDPSSO), samlgen.S("2.0"), samlgen.S(samlgen.TS(samlgen.T0.Add(iiOff))), nil, nil, "id-req-1")
+						authnExtraChildren = ""
+						var err error
+						_, p := guard(func() error {
+							var req *saml.IdpAuthnRequest
+							req, err = saml.NewIdpAuthnRequest(idp, idpRequest(enc, doc, "rs"))
+							if err == nil {
+								err = req.Validate()
+							}
+							return nil
+						})
+						t.Impl(1)
+						if p != "" {
+							t.Fail("C05/gate/panic@"+p[strings.LastIndex(p, "@")+1:], "panicked: %s", p)
+							return
+						}
+						fresh := iiOff >= -tols[0].delay
+						v := core.MustReject
+						if fresh {
+							v = core.MustAccept
+						}
+						t.Modelled(v)
+						t.Compared()
+						t.Outcome(fmt.Sprint(err == nil))
+						if !fresh && err == nil {
+							t.Fail("C05/gate/accepts-stale-request-with-optional-children", "request issued %s ago (limit %s) carrying %s was accepted", -iiOff, tols[0].delay, ex.name)
+							t.Input("request_xml", string(doc))
+						}
+						if fresh && err != nil {
+							t.Fail("C05/gate/rejects-valid-request", "fresh request carrying %s refused: %v", ex.name, err)
+							t.Input("request_xml", string(doc))
+						}
+					})
+				}
+			}
+		}
+	}
+
 	// what the HTTP request says about itself - its Host header, the authority of its request-target, forwarding headers - is chosen by
 	// whoever sends it: the Destination has to be the IdP's configured SSO URL whatever those say
 	c.Group("gate-destination-x-what-the-request-says-about-itself")
 	if md, err := buildShape(gateShapes[0], false); err == nil {
 		idp := mkIDP(md)
-		gdests := []sv{{"absent", nil}, {"sso", samlgen.S(samlgen.IDPSSO)}, {"other-host-same-path", samlgen.S("https://idp.other.example/saml/sso")}, {"other-host-with-port", samlgen.S("https://idp.other.example:8443/saml/sso")},
+		idp.LogoutURL = harness.MustURL(samlgen.IDPSLO) // the IdP has a logout endpoint too: it is not where AuthnRequests are addressed
+		gdests := []sv{{"the-idps-own-logout-url", samlgen.S(samlgen.IDPSLO)}, {"the-idps-metadata-url", samlgen.S(samlgen.IDPEntity)}, {"absent", nil}, {"sso", samlgen.S(samlgen.IDPSSO)}, {"other-host-same-path", samlgen.S("https://idp.other.example/saml/sso")}, {"other-host-with-port", samlgen.S("https://idp.other.example:8443/saml/sso")},
 			{"http-scheme", samlgen.S("http://idp.example.com/saml/sso")}, {"other", samlgen.S("https://other-idp.example.net/sso")}}
 		hosts := []string{"", "idp.other.example", "idp.other.example:8443", "other-idp.example.net", "IDP.EXAMPLE.COM", "idp.example.com:443"}
 		targets := []string{samlgen.IDPSSO, "https://idp.other.example/saml/sso", "/saml/sso", "http://idp.example.com/saml/sso"}
